@@ -191,7 +191,28 @@ func putErrorOnSuccessChecked(c *core.Ctx) {
 					continue
 				}
 				f := astx.CalleeFunc(info, call)
-				if f == nil || !strings.HasPrefix(f.Name(), "put") {
+				if f == nil {
+					continue
+				}
+				// the recycling step: a first-party helper that is handed the Compressor / Decompressor and
+				// returns an error (whatever it is called), or - with the helper folded into this function -
+				// the Close of that object itself
+				isCodec := func(t types.Type) bool {
+					nt := astx.NamedOf(t)
+					return nt != nil && nt.Obj().Pkg() == p.Connect.Types && (nt.Obj().Name() == "Compressor" || nt.Obj().Name() == "Decompressor")
+				}
+				recycles := false
+				if sig, _ := f.Type().(*types.Signature); sig != nil && f.Pkg() == p.Connect.Types && sig.Results().Len() == 1 {
+					for pi := 0; pi < sig.Params().Len(); pi++ {
+						if isCodec(sig.Params().At(pi).Type()) {
+							recycles = true
+						}
+					}
+				}
+				if sel, isSel := call.Fun.(*ast.SelectorExpr); isSel && f.Name() == "Close" && len(call.Args) == 0 && isCodec(info.TypeOf(sel.X)) {
+					recycles = true
+				}
+				if !recycles {
 					continue
 				}
 				errObj := astx.ObjOf(info, as.Lhs[0])
